@@ -8,6 +8,9 @@ package c09
 
 import (
 	"fmt"
+	"os"
+	"strconv"
+	"syscall"
 	"strings"
 
 	"verif/engine"
@@ -45,13 +48,29 @@ func init() {
 	})
 }
 
+// C09_ONLY (development aid): restrict the run to some families, e.g. "f" or "rm".
+func only(fam string) bool {
+	o := os.Getenv("C09_ONLY")
+	return o == "" || strings.Contains(o, fam)
+}
+
 func enumerate(tier string, emit func(string)) {
-	enumFormat(tier, emit)
-	enumFuncs(tier, emit)
-	enumReader(tier, emit)
+	if only("m") {
+		enumFormat(tier, emit)
+	}
+	if only("f") {
+		enumFuncs(tier, emit)
+	}
+	if only("r") {
+		enumReader(tier, emit)
+	}
 }
 
 func execCase(spec string) engine.Result {
+	if tainted {
+		restartWorker()
+	}
+	execCalls++
 	switch {
 	case strings.HasPrefix(spec, "f|"):
 		return execFunc(spec)
@@ -66,6 +85,9 @@ func execCase(spec string) engine.Result {
 }
 
 func bound(tier string) string {
+	if o := os.Getenv("C09_ONLY"); o != "" {
+		return "DEVELOPMENT RUN restricted to families " + o
+	}
 	nf := len(allFunctions())
 	np := len(fullPool)
 	if tier == engine.Thorough {
@@ -86,4 +108,47 @@ func bound(tier string) string {
 
 func selftest(tier string) (killed, total int, notes []string) {
 	return 0, 0, nil
+}
+
+// execCalls counts the cases this process has been given (1:1 with the
+// engine's per-shard case index beyond --resume).
+var execCalls int
+
+// restartWorker: a previous case (already reported) left this interpreter
+// broken. A static worker replaces itself by a fresh image that resumes at the
+// case now in flight, so that no later case is judged in a broken world. (The
+// partial summary of this image is lost exactly as after an engine restart;
+// first failures have already been streamed.) In any other mode: carry on.
+func restartWorker() {
+	if len(os.Args) < 3 || os.Args[1] != "worker" {
+		tainted = false
+		return
+	}
+	resume := 0
+	args := append([]string{}, os.Args...)
+	ri := -1
+	for i := 3; i+1 < len(args); i++ {
+		if args[i] == "--resume" || args[i] == "-resume" {
+			resume, _ = strconv.Atoi(args[i+1])
+			ri = i + 1
+		}
+	}
+	if ri < 0 {
+		args = append(args, "--resume", "0")
+		ri = len(args) - 1
+	}
+	args[ri] = strconv.Itoa(resume + execCalls)
+	self, err := os.Executable()
+	if err != nil {
+		return
+	}
+	env := baseEnv
+	if env == nil {
+		env = os.Environ()
+	}
+	_ = os.Chdir("/")
+	_ = os.RemoveAll(scratchDir)
+	_ = syscall.Exec(self, args, env)
+	// only reached when exec failed: keep going, later failures will not confirm
+	tainted = false
 }
